@@ -143,6 +143,9 @@ func mergeWorkload(c *Ctx, slice int) {
 		if class == "xwide" && round%3 != 0 {
 			class = "chain"
 		}
+		if i == 33 {
+			class = "huge" // once per run: document numbers beyond 16 bits
+		}
 		runMergePlan(c, i, rng, class, slice)
 	}
 }
@@ -207,6 +210,12 @@ func runMergePlan(c *Ctx, i int, rng *rand.Rand, class string, slice int) {
 				cl = "mid"
 				o.Terms = []string{"a", "b", "k", ""}
 			}
+		case "huge":
+			cl = "small"
+			if l == 0 {
+				cl = "huge"
+			}
+			o.Syn = syn
 		case "updates":
 			o.IDPrefix = "u-" // same ids in every segment, older copies deleted below
 			o.NoDupIDs = true
@@ -273,7 +282,10 @@ func runMergePlan(c *Ctx, i int, rng *rand.Rand, class string, slice int) {
 			k = pool
 		}
 		perm := rng.Perm(pool)
-		if vec {
+		if class == "huge" {
+			st.inputs = []int{0, 1} // the huge leaf and a small one
+			usedAsInput[0], usedAsInput[1] = true, true
+		} else if vec {
 			// vector ids are unique per (vector, document) and survive merges: a
 			// segment is never merged together with a segment derived from it, so
 			// in vector plans every segment is an input at most once
@@ -341,6 +353,8 @@ func runMergePlan(c *Ctx, i int, rng *rand.Rand, class string, slice int) {
 				style = []int{0, 4, 2, 4}[rng.Intn(4)]
 			case "tall-edge":
 				style = []int{2, 4, 0, 3}[rng.Intn(4)]
+			case "huge":
+				style = []int{2, 4, 2}[rng.Intn(3)]
 			case "empty-merged":
 				style = 5
 				if s > 0 {
@@ -353,7 +367,8 @@ func runMergePlan(c *Ctx, i int, rng *rand.Rand, class string, slice int) {
 		if rng.Intn(3) == 0 {
 			st.mode = modeFor(i+s+1, rng) // output chunk mode may differ from the inputs'
 		}
-		if class == "tall" || class == "tall-edge" {
+		if class == "tall" || class == "tall-edge" || class == "huge" {
+			// (small fixed chunk sizes cost chunks x terms: gigabytes with 65536 documents)
 			st.mode = []uint32{1026, 1025, 1026, 1024}[rng.Intn(4)]
 		}
 		var ims []*model.Seg
@@ -441,6 +456,8 @@ func runMergePlan(c *Ctx, i int, rng *rand.Rand, class string, slice int) {
 			lm := mode
 			if class == "tall" {
 				lm = []uint32{1026, 1025, 64, 1026}[l%4]
+			} else if class == "huge" {
+				lm = []uint32{1026, 1025, 1024}[(i+l)%3]
 			} else if rng.Intn(4) == 0 {
 				lm = modeFor(i+l+7, rng)
 			}
